@@ -195,7 +195,7 @@ class ChainBuild(Suite):
 
     def gen(self, rng, tier):
         from .gen_pipeline import gen_case
-        return [gen_case(rng) for _ in range(60 if tier == 'quick' else 1500)]
+        return [gen_case(rng) for _ in range(100 if tier == 'quick' else 1500)]
 
     def run_impl(self, case):
         with pl.workspace(case) as (d, mod):
